@@ -316,7 +316,42 @@ def _num_voxels_calls(m, init):
             fo.stmt(st, env)
         except (Refuse, Raised):
             continue
+    calls.append(("__env__", env, so))
     return calls
+
+
+def rule_e(ctx, init):
+    R = "C19.e"
+    ctx.rule(R, "per-axis quantities stay per axis: every two-entry list the constructor computes for the patched matrix axes (patch size, overlap, "
+             "centre offsets in voxels or metres) has an entry k that depends on the image extent / voxel size of axis k only -- an entry that "
+             "mixes both axes (a maximum over the axes, a swapped pair) moves interiors away from the advertised corners for elongated patches")
+    from ..terms import nf
+
+    m = ctx.model
+    sem = _num_voxels_calls(m, init)
+    envs = [x for x in sem if x and x[0] == "__env__"]
+    if not envs:
+        ctx.ob(R, init.qname, "per-axis lists depend on their own axis only", False, "fold of the constructor not found", init.node)
+        ctx.floor(R, 1)
+        return
+    _, env, so = envs[0]
+    cand = {}
+    for name, v in list(env.items()) + [(f"self.{a}", v) for a, v in so.fields.items()]:
+        if isinstance(v, list) and len(v) == 2 and not name.startswith("__") and all(not isinstance(x, (list, tuple, dict)) for x in v):
+            cand[name] = v
+    n = 0
+    for name, v in sorted(cand.items()):
+        texts = [nf(x) for x in v]
+        if not any(tok in t for t in texts for tok in ("D0", "D1", "N0", "N1", "hx", "hy")):
+            continue
+        n += 1
+        ctx.instance(R)
+        # matrix axis 0 <-> D0, N0, hy ; matrix axis 1 <-> D1, N1, hx
+        foreign = [(0, [tok for tok in ("D1", "N1", "hx") if tok in texts[0]]), (1, [tok for tok in ("D0", "N0", "hy") if tok in texts[1]])]
+        bad = [(k, toks) for k, toks in foreign if toks]
+        ctx.ob(R, init.qname, f"`{name}`: entry k depends on axis k only", not bad,
+               "; ".join(f"entry {k} = {texts[k][:70]} mentions {toks} of the other axis" for k, toks in bad), init.node, evidence=True)
+    ctx.floor(R, 2)
 
 
 def rule_d(ctx, init):
@@ -332,7 +367,7 @@ def rule_d(ctx, init):
     m = ctx.model
     sem = _num_voxels_calls(m, init)
     decided, undecided = 0, []
-    for length, axis, res in sem:
+    for length, axis, res in [x for x in sem if not (x and x[0] == "__env__")]:
         comps = res.flat() if isinstance(res, Arr) else (list(res) if isinstance(res, (list, tuple)) else [res])
         lens = length.flat() if isinstance(length, Arr) else (list(length) if isinstance(length, (list, tuple)) else [length])
         if res is None or len(comps) != len(lens):
@@ -452,3 +487,4 @@ def run(ctx):
     rule_b(ctx, init, tabs)
     rule_c(ctx, init, tabs)
     rule_d(ctx, init)
+    rule_e(ctx, init)
